@@ -31,8 +31,47 @@ def run(tier, seed):
     v, cov, a, _ = clientlib.run_plan(PID, tier, seed, mcs, gens, FIELDS, nontrivial,
         "behaviours = every path of MC_Pins: timestamp pinning snapshot by version, optionally digest and length; any published snapshot (version, spelling, size, its own pin of targets); any published targets; non-trivial = a served file differs from its pin in version, digest or length",
         ASSUME)
+    delegated_pins(v, cov)
     return v.finish("model_checking", cov, a)
 
 
+def delegated_pins(v, cov):
+    """Delegated roles: listed in the trusted snapshot, with exactly the listed version (Delegation.tla PinCases)."""
+    import os, json
+    import vlib
+    from vlib import tlc, make_cfg, vh, workdir, write_ndjson, read_ndjson
+    w = workdir("c05")
+    cfg = make_cfg("MC_Deleg_graph.cfg", {"MaxEdges": 0}, os.path.join(w, "pins.cfg"), invariants=["EmitPins"])
+    g = tlc("Delegation", cfg, "c05-pins", workers=1, timeout=300)
+    cases = g.replays[0]["cases"] if g.replays else []
+    cp = os.path.join(w, "pin-cases.ndjson")
+    write_ndjson(cp, cases)
+    out = os.path.join(w, "pin-out.ndjson")
+    vh(["deleg", "--mode", "pins", "--cases", cp, "--out", out])
+    rows = read_ndjson(out)
+    for r in rows:
+        c, o = r["in"]["c"], r["obs"]
+        exp = r["in"]["accept"]
+        if o["cls"].startswith("panic"):
+            v.violation(f"panic loading a repository with a delegated role: {o['cls']}", r)
+        elif o["loaded"] and not exp:
+            v.violation(f"delegated role at depth {c['depth']} trusted although " + ("it is not listed in the snapshot" if not c["listed"] else f"the snapshot lists version {c['pinned']} and the file has version {c['file']}"), r)
+        elif o["loaded"] and c["cons"] and o["expected_name"] not in o["reqs"]:
+            v.violation(f"consistent snapshots: requested {o['reqs']}, the snapshot names {o['expected_name']}", r)
+        elif not o["loaded"] and exp:
+            v.note_drift(f"delegated role matching its snapshot entry refused: {o['cls']} ({c})")
+    cov["evaluations"] += len(rows)
+    cov["traces_validated_against_impl"] += len(rows)
+    cov["distinct_nontrivial"] += sum(1 for r in rows if not r["in"]["accept"])
+    cov["delegated_role_pins"] = {"cases": len(rows), "rule": "depth 1..2 x listed or not x listed version 1..2 x file version 1..2 x consistent_snapshot"}
+
+
 def replay(path, seed):
+    import json
+    rp = json.load(open(path))["replay"]
+    if "in" in rp and "c" in rp.get("in", {}):
+        v = __import__("vlib").Verdict(PID, "quick", seed)
+        cov = {"evaluations": 0, "traces_validated_against_impl": 0, "distinct_nontrivial": 0}
+        delegated_pins(v, cov)
+        return 1 if v.violations else 0
     return clientlib.replay_one(PID, path, seed, FIELDS)
